@@ -52,7 +52,7 @@ def run(ctx):
     # Layer 2: the pool algorithm as written, all interleavings: exactly once, join after completion, liveness
     models = [("c1f1", True, 900), ("c1f2", True, 900)]
     if not ctx.quick:
-        models += [("c2f1", False, 3000), ("c2f1cap2", False, 3000)]
+        models += [("c1f3", False, 3000), ("c2f1", False, 3000), ("c2f1cap2", False, 3000)]
     for name, replay, to in models:
         dot = os.path.join(ctx.work, name + ".dot") if replay else None
         r = vlib.tlc(SPECDIR, "FuturePoolImpl", "FuturePoolImpl_%s.cfg" % name, workers=8 if ctx.quick else 14, timeout=to, dump=dot, xmx="12g")
@@ -76,14 +76,14 @@ def run(ctx):
     rng = ctx.rng
     for i in range(nrand):
         a = ["clients=%d" % rng.choice([1, 2, 2, 3]), "futs=%d" % rng.choice([1, 1, 2, 3]), "poolmax=%d" % rng.choice([1, 2, 2, 3]),
-             "poolcap=%d" % rng.choice([1, 1, 2, 4]), "mode=%d" % rng.choice([0, 1, 2]), "abort=%d" % rng.choice([0, 0, 1, 2]),
+             "poolcap=%d" % rng.choice([1, 1, 2, 4]), "mode=%d" % rng.choice([0, 1, 2, 3]), "abort=%d" % rng.choice([0, 0, 1, 2]),
              "sleep=%d" % rng.choice([0, 0, 0, 3000]), "workyield=%d" % rng.choice([0, 1]),
              "--seed", str(ctx.seed * 100003 + i), "--spur", rng.choice(["0", "0", "0.05"])]
         # A queue of capacity 1 together with worker retirement is outside what the shipped constants can reach: the
         # retirement request (a null job) is queued WITHOUT signalling the workers and lingers until the next job; with
         # capacity 1 it fills the queue for good (back-pressure then waits for a pop that sleeping workers never do).
         # With capacity >= 2 (the library uses 256) the next push succeeds and wakes the workers.  See DESIGN.md 5/C10.
-        if "sleep=3000" in a and "poolcap=1" in a:
+        if ("sleep=3000" in a or "mode=3" in a) and "poolcap=1" in a:
             a[a.index("poolcap=1")] = "poolcap=2"
         k = rng.random()
         if k < 0.6:
